@@ -2,7 +2,7 @@
 From Coq Require Import List Arith ZArith NArith Bool Lia.
 From C33 Require Import C18.Model C18.Spec C18.ProofsSeq C18.ProofsPar C18.ProofsBranch
   C18.ProofsComp1 C18.ProofsComp2 C18.ProofsBind C18.ProofsMulti C18.ProofsMut C18.ProofsBind2
-  C18.ModelServe C18.ProofsServe1 C18.ProofsServe2 C18.ProofsServe3.
+  C18.ModelServe C18.ProofsServe1 C18.ProofsServe2 C18.ProofsServe3 C18.ProofsServe4.
 Import ListNotations.
 Open Scope nat_scope.
 
@@ -27,6 +27,10 @@ Definition served_verify_full_claim := served_verify_full.
 Definition served_verify_refuted_thm := served_verify_refuted.
 Definition example_served_thm := example_served.
 Definition h_eqb_ok_thm := h_eqb_ok.
+Definition served_verify_para_partial_thm := served_verify_para_partial.
+Definition served_verify_para_full_claim := served_verify_para_full.
+Definition served_verify_para_refuted_thm := served_verify_para_refuted.
+Definition example_para_thm := example_para.
 
 Lemma example_duptail :
   let l1 := map Leaf [1; 2; 3; 4; 5; 6]%N in
